@@ -274,7 +274,13 @@ def get : Nat → Prog → St → Bag → String → St × Bag × Except String 
             else
               let (st, n) := alloc st { ctor := sym, args := vals }
               (st, bag, .ok (.ref (!sym.endsWith ".NewVal") n))
-        else if s.value != "" then (st, bag, .ok (goValue p s.value))
+        else if s.value != "" then
+          -- the value expression is evaluated at every construction: a struct literal (`&pkg.Obj{}` / `pkg.Obj{}`) is a
+          -- fresh object each time (it can then receive fields and calls of its own); other expressions denote what they name
+          if s.value.endsWith "{}" then
+            let (st, n) := alloc st { ctor := "", args := [] }
+            (st, bag, .ok (.ref (stripAmp s.value).1 n))
+          else (st, bag, .ok (goValue p s.value))
         else (st, bag, .ok (zeroOf s.type))
       match created with
       | .error e => (st, bag, .error ("get(" ++ Val.quoteStr id ++ "): " ++ e))
